@@ -11,13 +11,14 @@
                    checks (the container must be a struct; a field of that name and type must be stored by value at
                    that very offset), FALSE is the code without them.  Which variant the tree under test follows
                    is observed by the harness (SPEC-DRIFT if neither); verdicts never depend on it.
-     PutBytes / GetBytes   the raw write / read of the footprint on a byte-granular abstract memory
-     Putt / Gett           the dynamic `case *S` switch
+     PutBytes / GetBytes   the raw write / read of the footprint on a byte-granular abstract memory (the actions
+                   Put / Get / Putt / Gett over it, with the dynamic `case *S` switch, are in OpticsMemMC)
    P layer (statements of C01 and C02):
      Want          what a request must yield: "panic" (unknown name, absent type, other type, too few names,
                    container not a struct), "lens" on the first matching field when that field is stored by value,
-                   "ptr" when the first match lies behind an embedded pointer (a panic, or an optic that really acts
-                   on that field - the model has no such optic, so the model must panic)
+                   "ptr" when the first match lies behind an embedded pointer: a panic, or an optic whose footprint
+                   is exactly a by-value field of the requested type (and key) - AltEnts; TLC found that the repaired
+                   derivation accepts such coincidences, e.g. struct{ *E{F1 int8; f2 int64}; f2 int64 } / "f2"
      Focus         the cells of a field = what a lens on it may read and write
      PutCells      the field's cells take the value, every other cell, hole and guard byte keeps its content
 
